@@ -448,7 +448,116 @@ def case_stress(c):
     return out
 
 
-KINDS = {'table': case_table, 'rethread': case_rethread, 'bootstrap': case_bootstrap, 'threads': case_threads,
+def case_history(c):
+    """a history of calls on ONE BIOGEME object (plus, optionally, a second object sharing its Parameters).
+    Every result is serialised twice: right after its call ('now') and after the whole history ('final'): what an
+    earlier call returned must not be changed by later calls."""
+    rows = list(range(len(c['cols']['x1'])))
+    n = len(units(c, rows))
+    s = float(c['scale'])
+    points = [{k: v / s for k, v in pt.items()} for pt in c['points']]
+    res = {'n': n, 'steps': [], 'points': []}
+    # per-observation values at every point of the history, from FRESH objects
+    for pt in points:
+        def at_point(pt=pt):
+            F_ = make(c, rows, 1)
+            sm = F_.simulate(pt)
+            ll = formulas(c)[c.get('llkey', 'log_like')]
+            o = ll.get_value_and_derivatives(betas=pt, database=database(c, rows, 'c04h'), gradient=True, hessian=True, bhhh=True,
+                                             aggregation=False, prepare_ids=True)
+            return {'sim': {k: ratios(sm[k]) for k in sm.columns}, 'f': ratios(o.functions),
+                    'g': [ratios(o.gradients[i]) for i in range(n)], 'h': [ratios(o.hessians[i]) for i in range(n)],
+                    'b': [ratios(o.bhhhs[i]) for i in range(n)]}
+        res['points'].append(part(at_point))
+    shared = Parameters() if c.get('shared') else None
+
+    def build(T):
+        if shared is None:
+            return make(c, rows, T)
+        shared.set_value(name='number_of_threads', value=T, section='MultiThreading')
+        B_ = bio.BIOGEME(database(c, rows), formulas(c), parameters=shared)
+        B_.generate_html = False
+        B_.generate_pickle = False
+        B_.save_iterations = False
+        return B_
+
+    pb = part(lambda: build(c['T']))
+    if not pb['ok']:
+        res['build'] = pb
+        return res
+    B = pb['v']
+    other = None
+    names = list(B.id_manager.free_betas.names)
+    res['free'] = names
+    kept = []       # (step index, kind, object)
+
+    def ser(kind, o):
+        if kind == 'd':
+            return derivs(o)
+        if kind == 'sim':
+            return {k: ratios(o[k]) for k in o.columns}
+        return ratio(o)
+
+    for i, st in enumerate(c['steps']):
+        op = st['op']
+        sys.stdout.flush()
+
+        def go():
+            nonlocal other
+            if op == 'derivs':
+                x = [points[st['pt']][k] for k in names]
+                o = B.calculate_likelihood_and_derivatives(x, scaled=st['scaled'], hessian=st['hessian'], bhhh=st['bhhh'])
+                kept.append((i, 'd', o))
+                return derivs(o)
+            if op == 'like':
+                x = [points[st['pt']][k] for k in names]
+                return ratio(B.calculate_likelihood(x, scaled=st['scaled']))
+            if op == 'sim':
+                o = B.simulate(points[st['pt']])
+                kept.append((i, 'sim', o))
+                return ser('sim', o)
+            if op == 'change':
+                B.change_init_values({k: v / s for k, v in st['values'].items()})
+                return None
+            if op == 'random':
+                np.random.seed(st['seed'])
+                B.set_random_init_values(default_bound=st.get('bound', 100.0))
+                return None
+            if op == 'threads':
+                B.number_of_threads = st['T']
+                return int(B.number_of_threads)
+            if op == 'other':        # a second object sharing the Parameters object changes the thread count
+                if other is None:
+                    other = bio.BIOGEME(database(c, rows, 'c04o'), formulas(c), parameters=shared)
+                other.number_of_threads = st['T']
+                return int(B.number_of_threads)
+            if op == 'init':
+                f = B.calculate_init_likelihood()
+                cur = {k: float(v) for k, v in B.get_beta_values().items()}
+                vec = [float(v) for v in B.id_manager.free_betas_values]
+                fresh = make(c, rows, 1).simulate(cur)
+                own = B.simulate(cur)
+                return {'f': ratio(f), 'cur': {k: ratio(v) for k, v in cur.items()}, 'vec': ratios(vec),
+                        'sim': {k: ratios(fresh[k]) for k in fresh.columns}, 'own': {k: ratios(own[k]) for k in own.columns},
+                        'init': ratio(B.initLogLike)}
+            if op == 'estimate':
+                cur = {k: float(v) for k, v in B.get_beta_values().items()}
+                fresh = make(c, rows, 1).simulate(cur)
+                B.modelName = 'c04hist'
+                r = B.estimate()
+                return {'cur': {k: ratio(v) for k, v in cur.items()}, 'sim': {k: ratios(fresh[k]) for k in fresh.columns},
+                        'init': ratio(r.data.initLogLike), 'final': ratio(r.data.logLike),
+                        'betas': {k: ratio(v) for k, v in r.get_beta_values().items()}}
+            raise ValueError('unknown step ' + op)
+
+        res['steps'].append(part(go))
+        if not res['steps'][-1]['ok']:
+            break
+    res['final'] = {str(i): part(lambda: ser(kind, o)) for i, kind, o in kept}
+    return res
+
+
+KINDS = {'history': case_history, 'table': case_table, 'rethread': case_rethread, 'bootstrap': case_bootstrap, 'threads': case_threads,
          'stress': case_stress}
 
 
